@@ -7,6 +7,7 @@ import (
 	"encoding/hex"
 	"reflect"
 	"sort"
+	"time"
 )
 
 // Verification hooks (build tag verif only; add-only, never compiled into the
@@ -21,6 +22,19 @@ func (s *PfcpServer) VerifIdle() bool {
 // VerifQueues returns the lengths of the three loop channels.
 func (s *PfcpServer) VerifQueues() (rcv, sr, trTo int) {
 	return len(s.rcvCh), len(s.srCh), len(s.trToCh)
+}
+
+// VerifFailSends makes every write on the server's UDP socket fail (an expired write deadline: the error path a full device
+// queue, a filter or a route flap takes) until it is switched off again.
+func (s *PfcpServer) VerifFailSends(on bool) {
+	if s.conn == nil {
+		return
+	}
+	if on {
+		_ = s.conn.SetWriteDeadline(time.Unix(1, 0))
+	} else {
+		_ = s.conn.SetWriteDeadline(time.Time{})
+	}
 }
 
 // VerifSetTxSeq positions the counter used for UPF-initiated requests.
